@@ -57,8 +57,9 @@ impl Kinematics for OPWKinematics {
     /// The rotation of pose in this case is only approximate.
     fn inverse(&self, pose: &Pose) -> Solutions {
         if self.parameters.dof == 5 {
-            // For 5 DOF robot, we can only do 5 DOF approximate inverse.
-            self.inverse_intern_5_dof(pose, f64::NAN)
+            // For 5 DOF robot, we can only do 5 DOF approximate inverse, with joint 6 at 0.0
+            // as documented (a NaN here would fail the cross-check of every candidate).
+            self.inverse_5dof(pose, 0.0)
         } else {
             self.filter_constraints_compliant(self.inverse_intern(&pose))
         }
